@@ -15,6 +15,9 @@ CLAIMS = {
  "C04": dict(engine="csim", level="exploration", design="4 C04",
    text="Every vote and proposal an honest validator signs is judged at the moment of signing against the ledger of valid votes delivered to it: precommit needs a polka of that round, prevote/proposal against an earlier precommit needs a later polka for something else, commit needs +2/3 precommits of one round.",
    note="The ledger counts delivered (a superset of processed) votes, so it only errs toward permitting. The monitor starts over at each restart (what survives a crash is C07's subject)."),
+ "C07": dict(engine="csim", level="fault_enumeration", design="4 C07",
+   text="In seeded multi-round heights (Byzantine noise, small WAL head limits that force rotation inside a height, repeated crashes) validators are killed at quiescent points, at armed write points and with the log tail cut at a seeded byte offset inside the last record; after OnStart the restored round state (votes, lock, proposal, parts, step) must equal the pre-crash digest for an intact log and lie between the digests before and after the last record for a torn one; restart must not panic, the signature ledger must show no contradiction, and the fair suffix must still decide.",
+   note="Crash points are sampled per run (seeded), not enumerated exhaustively: evidence reports distinct (restart, truncation) cases reached. Findings F2 and F6 (and uncompensated F1) are reported as KNOWN-FINDING under keys that name their precondition, so other replay defects under other preconditions are still reported."),
  "C12": dict(engine="csim", level="exploration", design="4 C12",
    text="After every adversarial prefix the fair suffix stops faults, restarts crashed nodes and delivers every pending message and timeout in canonical order; every honest node must commit the next height within a generous bound on simulated time. A panic or gcmn.Exit on any node goroutine, and a node blocked while holding its state lock, are reported at any time.",
    note="Gossip routines are replaced by the harness's fair delivery (including the peer-majority claims queryMaj23Routine would send); the bound is 3N+5 rounds of growing timeouts plus per-height catch-up allowance."),
@@ -30,7 +33,6 @@ PLANNED = {
  "C03": "not claimed yet: signer crash-point enumerator (signersim) not built in this revision; an in-vivo signature ledger already runs inside every csim run",
  "C05": "not claimed yet: execsim (replicas x process histories x verifier schedules over the real EVM app) not built in this revision",
  "C06": "not claimed yet: crashsim (exhaustive single-crash enumeration over the commit path with the real EVM app) not built in this revision",
- "C07": "not claimed yet: WAL-mode digest oracle of csim not built in this revision",
  "C08": "not claimed yet: structure-aware message injection into csim not built in this revision",
  "C09": "not claimed yet: execsim adversarial transaction generator not built in this revision",
  "C11": "not claimed yet: triesim not built in this revision",
